@@ -16,10 +16,16 @@ TRUSTED = ["sqlite MIN/MAX aggregates, JOIN, DISTINCT, ORDER BY on text (modelle
 LEANCHECKER_MODULES = ["GffProofs.Props.C03"]
 
 
-def mk_case(lines, recs, cfg):
-    """a self-contained case: the GTF lines in file order, the generator's record of every line, the configuration"""
+FEATURE_FORMS = ["generator", "iter", "map", "all_features"]
+
+
+def mk_case(lines, recs, cfg, form="file", checklines=10):
+    """a self-contained case: the GTF lines in file order, the generator's record of every line, the configuration,
+    and how the lines reach create_db: "file" (a path) or as Feature objects (feature_from_line of every line) from a
+    one-shot source - "generator" (generator expression), "iter" (iter(list)), "map" (a map object), "all_features"
+    (db.all_features() of a database holding exactly the lines) - with the given checklines"""
     return {"scenario": "import", "input": list(lines), "records": list(recs), "parallel": ["records"],
-            "config": cfg.to_json()}
+            "config": cfg.to_json(), "form": form, "checklines": checklines}
 
 
 def oracle(recs, db, cfg, res, case):
@@ -135,10 +141,23 @@ def oracle(recs, db, cfg, res, case):
 
 
 def build(ctx, case):
-    """import the lines of the case with its configuration; returns (db, reply, cfg)"""
+    """import the lines of the case with its configuration, in its input form; returns (db, reply, cfg)"""
+    import gffutils
+    from gffutils.feature import feature_from_line
     cfg = dbside.Cfg.from_json(case["config"])
-    path = dbside.write_lines(os.path.join(ctx.scratch, "c03.gtf"), case["input"])
-    db, rep = dbside.py_create(path, cfg)
+    form, cl = case.get("form", "file"), case.get("checklines", 10)
+    data = dbside.write_lines(os.path.join(ctx.scratch, "c03.gtf"), case["input"])
+    if form == "all_features":
+        # a database holding exactly the lines (nothing inferred, keys '<featuretype>_<n>'), streamed in file order;
+        # imported with the same checklines, so that its features carry the dialect the file form would vote
+        src = gffutils.create_db(data, ":memory:", id_spec="no_such_attribute", disable_infer_genes=True, checklines=cl,
+                                 disable_infer_transcripts=True, gtf_transcript_key=cfg.tkey, gtf_gene_key=cfg.gkey,
+                                 gtf_subfeature=cfg.sub, verbose=False)
+        data = src.all_features()
+    elif form != "file":
+        feats = [feature_from_line(l) for l in case["input"]]
+        data = {"generator": (f for f in feats), "iter": iter(feats), "map": map(lambda f: f, feats)}[form]
+    db, rep = dbside.py_create(data, cfg, checklines=cl)
     return db, rep, cfg
 
 
@@ -161,7 +180,9 @@ def run(ctx):
     r = ctx.rng("c03")
     res.rule = ("GTF forests: 1-3 genes x 1-3 transcripts x 0-4 exons (+CDS, start_codon, exon-less transcripts), lines "
                 "shuffled or in order, with/without explicit gene and transcript lines, all four disable_infer_* "
-                "combinations, custom transcript/gene keys and subfeature type. non-trivial = distinct (file, flags) with "
+                "combinations, custom transcript/gene keys and subfeature type; given as a file and (every second forest, and "
+                "every one of more than 11 lines) as Feature objects from a generator / iter(list) / map / db.all_features() "
+                "with checklines below, at and above the number of records. non-trivial = distinct (file, flags) with "
                 ">= 1 transcript owning exons")
     cmds, exp, tags = [], [], []
     n = 200 if not ctx.thorough else 2000
@@ -209,6 +230,26 @@ def run(ctx):
         cmds.append("dump"); exp.append(dbside.dump(db)); tags.append(("tables after GTF import", repr((lines, cfg.describe()))))
         if len(res.samples) < 2:
             res.sample({"lines": lines, "config": cfg.describe()})
+        # the same GTF records as Feature objects from a one-shot source (the dialect peek must hand every item on to
+        # the importer): same oracle; the tables are compared with the model's import of the lines
+        if i % 2 == 0 or len(lines) > 11:
+            form = r.choice(FEATURE_FORMS)
+            cl = r.choice([10, 10, 10, 0, 1, 3, max(len(lines) - 2, 0), len(lines) - 1, len(lines)])
+            case2 = mk_case(lines, recs, cfg, form, cl)
+            db2, rep2, _ = build(ctx, case2)
+            res.evaluations += 1
+            res.count("form_" + form)
+            res.count("feature_form_" + ("more_than_checklines_plus_1" if len(lines) > cl + 1 else "within_peek"))
+            tag = repr((lines, cfg.describe(), form, cl))
+            cmds.append(dbside.cmd_create(lines, cfg, checklines=cl)); exp.append(rep2)
+            tags.append(("create_db (GTF, Feature objects from a one-shot source)", tag))
+            if db2 is None:
+                common.fail(res, case2, "create_db_raised", "create_db raised on GTF features given as %s: %s" % (form, rep2),
+                            error=rep2, observed=rep2, expected="ok")
+                continue
+            oracle(recs, db2, cfg, res, case2)
+            cmds.append("dump"); exp.append(dbside.dump(db2))
+            tags.append(("tables after GTF import (Feature objects from a one-shot source)", tag))
     # outside the property's domain, correspondence only: the exons of one transcript / gene disagree on strand or seqid.
     # The derived feature then carries the strand and seqid of ONE exon - which one is sqlite's choice for bare columns
     # next to MIN()/MAX() (modelled in Create.extent: first row in child-id order that attains MAX(end))
